@@ -189,6 +189,10 @@ def run(res, tier, seed):
         res.add_lemma(a, expect, what)
         if a["result"] != expect:
             raise vlib.ToolError("lemma %s!%s: %s (expected %s)" % (m, inv, a["result"], expect))
+    tw = vlib.run_tlapm("WindowProof")
+    res.add_lemma(tw, "Proved", "TLAPS: support window inside the source and around the centre pixel for ALL naturals (crop inside, support >= 1/2)")
+    if tw["result"] != "Proved":
+        raise vlib.ToolError("TLAPS proof WindowProof: %s" % tw["result"])
     t = vlib.run_tlapm("NearestProof")
     res.add_lemma(t, "Proved", "TLAPS: floor(centre) is an index inside the source for ALL natural sizes and every rational grid (crop inside)")
     if t["result"] != "Proved":
